@@ -158,6 +158,7 @@ def main():
     ck.family("dead_heat_count", len(drow), len(set(drow)), dbad, dbad, exhaustive=False)
     ck.family("cleared_summary", len(crow), len(set(crow)), cm, cm, ambiguous=sum(1 for c in cc if c == 1),
               samples=[{"family": "cleared", "case": ccases[0], "impl": cres[0]["cleared"]}])
+    whole_runs(ck, rng, thorough)
     for i in sorted(set(bad_copy))[:2]:
         ck.fail("C08-results-copied", "process_closed_market did not give every order of the market the runner's result and the market's settlement terms", {"case": ccases[i], "impl": cres[i]})
     for i in cm[:3]:
@@ -168,7 +169,94 @@ def main():
         ck.fail("C08-dead-heat-count", "number_of_dead_heat_winners is not (winners in the book if more than declared)", {"row": drow[i]})
     for i in pm[:2]:
         ck.fail("C08-profit", "profit after process_closed_market differs from the exchange's rules", {"row": prow[i]})
-    return ck.finish("SimulatedOrder.profit on real orders (both sides, plain/each-way/line, every result, dead heats 1-7, divisors, line results below/equal/above, reduced prices) vs the Coq model (both tie-breaks) and an independent exact-rational calculator; back/lay antisymmetry on identical fills; Blotter.process_closed_market + Market.cleared on real markets with 1-2 clients and commission rates; distinct = distinct case rows")
+    return ck.finish("whole simulated runs (1-3 strategies, 1-2 clients with different commission rates, markets closed once / repeatedly with amended results / closed-reopened-closed): order profit and per-client cleared summary re-computed at every close; SimulatedOrder.profit on real orders (both sides, plain/each-way/line, every result, dead heats 1-7, divisors, line results below/equal/above, reduced prices) vs the Coq model (both tie-breaks) and an independent exact-rational calculator; back/lay antisymmetry on identical fills; Blotter.process_closed_market + Market.cleared on real markets with 1-2 clients and commission rates; distinct = distinct case rows")
+
+
+def whole_runs(ck, rng, thorough):
+    """settlement inside whole simulated runs: 1-3 strategies and 1-2 clients (commission 0/2/5/6.5%) with orders in the same markets, markets
+    closed once, twice in a row with an amended result, or closed - re-opened - closed: at EVERY close each order's profit is what its fills
+    pay under the result of that close, and each client's cleared summary is the sum over its matched orders with commission on a net win only"""
+    import copy, simgen
+    n = 240 if thorough else 60
+    scs = []
+    for _ in range(n):
+        s = simgen.gen_scenario(rng, {"nmarkets": [1, 2], "nstrats": [1, 2, 3], "p_close": 0.0, "min_upd": 5, "max_upd": 8, "no_remove": True, "p_remove": 0.0,
+                                      "p_inplay": 0.0, "kinds": ["L"], "p_place": 0.7, "p_manage": 0.2, "p_fok": 0.0, "types": ["WIN", "PLACE"]})
+        for c in s["clients"]:
+            c["commission"] = rng.choice([0.05, 0.02, 0.0, 0.065])
+        if rng.random() < 0.4:
+            s["clients"].append(dict(s["clients"][0], commission=rng.choice([0.05, 0.02])))
+            for i, sp in enumerate(s["strategies"]):
+                sp["client"] = i % 2
+        for m in s["markets"]:
+            last = m["updates"][-1]
+            tail = rng.choice([["CLOSED"], ["CLOSED", "CLOSED"], ["CLOSED", "CLOSED", "CLOSED"], ["CLOSED", "OPEN", "CLOSED"]])
+            pt = last["pt"]
+            for stt in tail:
+                pt += rng.choice([100, 1000, 5000])
+                u = copy.deepcopy(last); u["pt"] = pt; u["status"] = stt; u["version"] = last["version"] + 1
+                if stt == "CLOSED":
+                    w = rng.randrange(len(u["runners"]))
+                    for i, r in enumerate(u["runners"]):
+                        r["status"] = "WINNER" if i == w else "LOSER"; r["atb"] = []; r["atl"] = []
+                m["updates"].append(u)
+        scs.append(s)
+    outs = run_impl_parallel("simlib", [{"scenarios": [simgen.to_impl(x) for x in ch], "observe": "all"} for ch in chunked(scs, 20)], timeout=3600)
+    impl = [r for o in outs for r in o["out"]]
+    bad, nclose, norders, multi = [], 0, 0, 0
+    for i, (sc, io) in enumerate(zip(scs, impl)):
+        mindex = {m["id"]: k for k, m in enumerate(sc["markets"])}
+        seen = set()
+        # the logging control reports in order: per close of a market one cleared-market summary per client, then closed_market
+        groups, cur = {}, []
+        for e in io["events"]:
+            if e[0] == "cleared_market":
+                cur.append(e)
+            elif e[0] == "closed_market":
+                groups.setdefault(e[1], []).append(cur); cur = []
+        kth = {}
+        for o in io["obs"]:
+            if o["cb"] != "closed" or (o["m"], o["pt"]) in seen:
+                continue
+            seen.add((o["m"], o["pt"])); nclose += 1
+            k = kth.get(o["m"], 0); kth[o["m"]] = k + 1
+            upd = next(u for u in sc["markets"][mindex[o["m"]]]["updates"] if u["pt"] == o["pt"] and u["status"] == "CLOSED")
+            st = {r["id"]: r["status"] for r in upd["runners"]}
+            tot = {}
+            strategies_with_fills = set()
+            for x in o["orders"]:
+                norders += 1
+                m_c, a_bp = int(round(x["matched"] * 100)), int(round(x["avg"] * 10000))
+                adm = spec_profit({"side": x["side"], "ew": False, "div": 1, "line": False, "lr": None, "m": m_c, "a": a_bp, "result": st.get(x["sel"]), "dead": 1}) if m_c else {0}
+                got = int(round(x["profit"] * 100))
+                if got not in adm:
+                    bad.append((i, "C08-profit-at-close", "order %s (%s %s @ %s on %s, result %s at this close): profit %s, the exchange's rules give %s cents" % (
+                        x["o"], x["side"], x["matched"], x["avg"], x["sel"], st.get(x["sel"]), x["profit"], sorted(adm)), {"close_pt": o["pt"], "order": x}))
+                if m_c:
+                    tot.setdefault(x["client"], []).append(got)
+                    strategies_with_fills.add((x["client"], x["strategy"]))
+            if len(strategies_with_fills) > len({c for c, _ in strategies_with_fills}):
+                multi += 1
+            cms = groups.get(o["m"], [])[k] if k < len(groups.get(o["m"], [])) else []
+            for ci, c in enumerate(sc["clients"]):
+                if ci >= len(cms):
+                    bad.append((i, "C08-cleared-missing", "no cleared-market summary for client %d at the close of %s" % (ci, o["m"]), {"close_pt": o["pt"]})); continue
+                prof = sum(tot.get(ci, []))
+                rate = Fraction(str(c.get("commission", 0.05)))
+                comm = Fraction(prof) * rate if prof > 0 else Fraction(0)
+                e = cms[ci]
+                ok = int(round(e[2] * 100)) == prof and e[4] == len(tot.get(ci, [])) and abs(Fraction(int(round(e[3] * 100))) - comm) <= Fraction(1, 2)
+                if not ok:
+                    bad.append((i, "C08-cleared-summary", "client %d at the close of %s: summary profit %s commission %s bets %s; its matched orders sum to %s cents, commission on a net win only = %s cents, %d bets" % (
+                        ci, o["m"], e[2], e[3], e[4], prof, float(comm), len(tot.get(ci, []))), {"close_pt": o["pt"], "orders": [x for x in o["orders"] if x["client"] == ci]}))
+    ck.family("settlement_in_whole_runs", len(scs), len(scs), [], sorted({b[0] for b in bad}),
+              dist={"closes": nclose, "orders_settled": norders, "closes_with_several_strategies_of_one_client": multi, "runs_aborted_by_impl": sum(1 for io in impl if io["error"])})
+    seen = set()
+    for i, key, desc, det in bad:
+        if key in seen:
+            continue
+        seen.add(key)
+        ck.fail(key, desc, {"scenario": scs[i], "detail": det, "how": "harness/impl/simlib.py run_scenario(simgen.to_impl(scenario)) on the real FlumineSimulation"})
 
 
 def replay(path):
